@@ -243,6 +243,11 @@ pub enum MutKind {
     AddOrder,
     AddTargets,
     AddStacks,
+    /// the key is present but holds a zero-length array — still a document mixing order with targets/stacks
+    AddEmptyTargets,
+    AddEmptyStacks,
+    /// a key the format defines for a DIFFERENT table, placed here (e.g. `launch = true` at the top level of a layer TOML)
+    InsertMisplaced(String, u8),
     /// negative control: unknown key inside free-form metadata must still be accepted
     MetadataUnknownKey,
 }
@@ -256,6 +261,25 @@ pub struct Mutation {
 fn collect_mutations(fields: &[Field], t: &TV, path: &mut Vec<PathEl>, out: &mut Vec<Mutation>, ty: Ty) {
     let TV::Table(kv) = t else { return };
     out.push(Mutation { path: path.clone(), kind: MutKind::InsertUnknown });
+    // keys that exist elsewhere in this format but not in this table
+    let here: Vec<&str> = fields.iter().map(|f| f.key).collect();
+    let mut all: Vec<(&'static str, u8)> = vec![];
+    fn gather(fields: &[Field], out: &mut Vec<(&'static str, u8)>) {
+        for f in fields {
+            let kind = match &f.sch { Sch::Bool => 0, Sch::Str(_) => 1, _ => 2 };
+            if !out.iter().any(|(k, _)| *k == f.key) {
+                out.push((f.key, kind));
+            }
+            match &f.sch {
+                Sch::Table(inner) | Sch::TableArray(inner) => gather(inner, out),
+                _ => {}
+            }
+        }
+    }
+    gather(&schema(ty), &mut all);
+    for (k, kind) in all.into_iter().filter(|(k, _)| !here.contains(k) && !kv.iter().any(|(kk, _)| kk == k)) {
+        out.push(Mutation { path: path.clone(), kind: MutKind::InsertMisplaced(k.to_string(), kind) });
+    }
     for fld in fields {
         let present = kv.iter().find(|(k, _)| k == fld.key);
         if let Some((_, v)) = present {
@@ -336,6 +360,9 @@ fn apply(doc: &TV, m: &Mutation) -> TV {
         MutKind::AddOrder => kv.push(("order".into(), TV::Array(vec![TV::table(vec![("group", TV::Array(vec![TV::table(vec![("id", TV::s("a/b")), ("version", TV::s("1.0.0"))])]))])]))),
         MutKind::AddTargets => kv.push(("targets".into(), TV::Array(vec![TV::table(vec![("os", TV::s("linux"))])]))),
         MutKind::AddStacks => kv.push(("stacks".into(), TV::Array(vec![TV::table(vec![("id", TV::s("*"))])]))),
+        MutKind::AddEmptyTargets => kv.push(("targets".into(), TV::Array(vec![]))),
+        MutKind::AddEmptyStacks => kv.push(("stacks".into(), TV::Array(vec![]))),
+        MutKind::InsertMisplaced(k, kind) => kv.push((k.clone(), match kind { 0 => TV::Bool(true), 1 => TV::s("x"), _ => TV::Array(vec![]) })),
     }
     d
 }
@@ -583,6 +610,8 @@ fn check_doc(ctx: &Ctx, ty: Ty, doc: &TV) -> Check {
         Ty::Composite | Ty::DescriptorFromComposite => {
             muts.push(Mutation { path: vec![], kind: MutKind::AddTargets });
             muts.push(Mutation { path: vec![], kind: MutKind::AddStacks });
+            muts.push(Mutation { path: vec![], kind: MutKind::AddEmptyTargets });
+            muts.push(Mutation { path: vec![], kind: MutKind::AddEmptyStacks });
         }
         _ => {}
     }
@@ -603,6 +632,9 @@ fn check_doc(ctx: &Ctx, ty: Ty, doc: &TV) -> Check {
             MutKind::AddOrder => "add-order".into(),
             MutKind::AddTargets => "add-targets".into(),
             MutKind::AddStacks => "add-stacks".into(),
+            MutKind::AddEmptyTargets => "add-empty-targets".into(),
+            MutKind::AddEmptyStacks => "add-empty-stacks".into(),
+            MutKind::InsertMisplaced(k, _) => format!("misplaced-key:{k}"),
             MutKind::MetadataUnknownKey => "metadata-unknown-key(control)".into(),
         };
         ctx.class(&format!("mutation:{}", kind_name.split(':').next().unwrap()));
@@ -610,6 +642,11 @@ fn check_doc(ctx: &Ctx, ty: Ty, doc: &TV) -> Check {
         enum Want {
             Reject,
             Accept(&'static str),
+        }
+        if let MutKind::InsertMisplaced(k, _) = &m.kind {
+            if m.path.is_empty() && ["order", "targets", "stacks"].contains(&k.as_str()) && matches!(ty, Ty::Component | Ty::Composite | Ty::DescriptorFromComponent | Ty::DescriptorFromComposite) {
+                continue;
+            }
         }
         let want = match (&m.kind, ty) {
             (MutKind::MetadataUnknownKey, _) => Want::Accept(expected_class(ty)),
@@ -647,12 +684,12 @@ fn ty_from_name(s: &str) -> Ty {
 }
 
 pub fn run(ctx: &Ctx) {
-    ctx.set_rule("valid documents for ComponentBuildpackDescriptor, CompositeBuildpackDescriptor, BuildpackDescriptor (from component and composite documents), BuildpackPlan, LayerContentMetadata, Launch, Store, PackageDescriptor generated from the harness's own schema of the spec (every optional key present with probability 1/2, 0..3 array-of-table elements, nested free-form metadata, nasty strings) and emitted by the harness's emitter; for each document EVERY single-point mutation: unknown key in each table and array-of-tables element outside metadata, deletion of each required key, retyping of each scalar/array/table, adding order/targets/stacks; negative control: unknown key inside metadata. Oracle: valid => accepted, classified, values equal with spec defaults filled; mutation => rejected (with the composite/component classification rules). Non-trivial: mutation applied below the top level of a document that has at least one array-of-tables element; distinct = hash of the mutated text.");
-    ctx.assume("store.toml without [metadata] is not generated (spec silent); order together with an EMPTY targets/stacks list is not judged");
+    ctx.set_rule("valid documents for ComponentBuildpackDescriptor, CompositeBuildpackDescriptor, BuildpackDescriptor (from component and composite documents), BuildpackPlan, LayerContentMetadata, Launch, Store, PackageDescriptor generated from the harness's own schema of the spec (every optional key present with probability 1/2, 0..3 array-of-table elements, nested free-form metadata, nasty strings) and emitted by the harness's emitter; for each document EVERY single-point mutation: unknown key in each table and array-of-tables element outside metadata, deletion of each required key, retyping of each scalar/array/table, adding order/targets/stacks (also as zero-length arrays), inserting a key that the format defines for a different table; negative control: unknown key inside metadata. Oracle: valid => accepted, classified, values equal with spec defaults filled; mutation => rejected (with the composite/component classification rules). Non-trivial: mutation applied below the top level of a document that has at least one array-of-tables element; distinct = hash of the mutated text.");
+    ctx.assume("store.toml without [metadata] is not generated (spec silent); a component document that already has an empty targets/stacks list plus an added order is not judged");
     for (_p, v) in ctx.regress_files() {
         replay(ctx, "", &v["case"]);
     }
-    let per_type = ctx.tier.pick(400, 6000);
+    let per_type = ctx.tier.pick(150, 4000);
     for ty in TYPES {
         let strat = table_strategy(schema(ty));
         ctx.run_prop(
